@@ -183,8 +183,9 @@ package parser
 //@   props C04
 //@   at call getLocalAttribute#0 before assert[C04,name-location-captured-before-more-tokens-are-read] hits("GetNowTokenLoc#0") == hits("NextIdentifier#0")
 //@   at call append#0 before assert[C04,one-location-per-name] hits("GetNowTokenLoc#0") == hits("NextIdentifier#0")
-//@   ensures[C04,lists-aligned] len(result0) == len(result1) && len(result1) == len(result2)
-//@   loop 0 invariant [C04] hits("GetNowTokenLoc#0") == hits("NextIdentifier#0") && len(names) == len(locs) && len(locs) == len(kinds)
+// (C01 too: the analysis indexes the attribute and location lists with the index of the name - cgLocalVarDeclStat -, outside the parser's recover)
+//@   ensures[C04,C01,lists-aligned] len(result0) == len(result1) && len(result1) == len(result2)
+//@   loop 0 invariant [C04,C01] hits("GetNowTokenLoc#0") == hits("NextIdentifier#0") && len(names) == len(locs) && len(locs) == len(kinds)
 //@ end
 
 //@ func (*Parser).parseLocalAssignOrFuncDefStat
